@@ -67,6 +67,8 @@ func t3Body(s HarnessSpec) (func(x *gosym.Exec), error) {
 		return gosym.T3Float32Range(p), nil
 	case "intrange":
 		return gosym.T3IntRange(p, s.T3Bits, s.T3Signed, s.T3Native), nil
+	case "array":
+		return gosym.T3ArrayDecode(p, s.T3Bits), nil
 	case "encbuf":
 		return gosym.T3EncBufferBounds(p, s.T3Native), nil
 	case "b64cap":
